@@ -112,6 +112,8 @@ var c14pHands = []c14pHand{
 	{"string-with-newline", c14pFn + "  output += 'a\nb';\n" + c14pEnd},
 	{"bad-object-key", c14pFn + "  output += ns.u(soy.$$augmentMap(opt_data, {2nd: 1}), opt_sb, opt_ijData);\n" + c14pEnd},
 	{"number-dot-name", c14pFn + "  output += soy.$$escapeHtml(5.length);\n" + c14pEnd},
+	{"ok-length-key", c14pFn + "  output += soy.$$escapeHtml(opt_data.x.length);\n" + c14pEnd},
+	{"ok-length-function", c14pFn + "  output += soy.$$escapeHtml((opt_data.x).length);\n" + c14pEnd},
 	{"missing-brace", "ns.t = function(opt_data, opt_sb, opt_ijData) {\n  var output = '';\n  if (opt_data.x) {\n    output += 'a';\n" + c14pEnd},
 	{"missing-semicolon-brace", c14pFn + "  output += 'a'\n  }\n" + c14pEnd},
 	{"reserved-var", c14pFn + "  var class = 1;\n" + c14pEnd},
@@ -204,7 +206,7 @@ func init() {
 				// soyjs.Write output that the engine's parser rejects: C14's own subject; reported there as well
 				return &Viol{Key: "c14parse:generated-text-rejected", What: "C14parse: otto rejects a generated file: " + impl + " [" + c.Note + "]", Want: "ACCEPT"}
 			}
-			if c.Class == "corrupt-hand" && c.Note != "hand ok" && strings.HasPrefix(impl, "ACCEPT") {
+			if c.Class == "corrupt-hand" && !strings.HasPrefix(c.Note, "hand ok") && strings.HasPrefix(impl, "ACCEPT") {
 				return &Viol{Key: "c14parse:hand", What: "C14parse: the engine accepts a hand-corrupted text [" + c.Note + "]", Want: "REJECT"}
 			}
 			return nil
